@@ -24,6 +24,33 @@ HEADER = ("From Coq Require Import List NArith ZArith Bool.\nImport ListNotation
           "From RopeVerif.C05 Require Import Layout Move Domain Runner.\n")
 
 
+# ----------------------------------------------------------------------------- which variant is under test
+_VARIANT = None
+
+
+def detect_variant():
+    """Probe the code under test: does MoveModule's import context know the importing module's folder
+    (relctx), and does it rewrite from-imports when the destination is the project root (rootfrom)?
+    The matching variant of the model (coq/C05/Move.v, Record variant) is evaluated for every case."""
+    global _VARIANT
+    if _VARIANT is None:
+        M = L.mk_module
+        base = {"a/__init__.py": M(), "a/b.py": M(globals_=["f"]), "c/__init__.py": M()}
+        t1 = {"files": dict(base, **{"a/k.py": M([("F", 1, (), [("b", "x")])], [("x", "f")])}), "dirs": []}
+        o1 = L.run_rope_op(t1, ("move", ("P", ("a",), "b"), ("c",)))
+        relctx = "from c import b as x" in o1["files"].get("a/k.py", "")
+        t2 = {"files": dict(base, **{"k.py": M([("F", 0, ("a",), [("b", "x")])], [("x", "f")])}), "dirs": []}
+        o2 = L.run_rope_op(t2, ("move", ("P", ("a",), "b"), ()))
+        rootfrom = "import b as x" in o2["files"].get("k.py", "") and "from a import" not in o2["files"].get("k.py", "")
+        _VARIANT = {"relctx": relctx, "rootfrom": rootfrom}
+    return _VARIANT
+
+
+def g_variant():
+    v = detect_variant()
+    return "{| v_relctx := %s; v_rootfrom := %s |}" % (g_bool(v["relctx"]), g_bool(v["rootfrom"]))
+
+
 # ----------------------------------------------------------------------------- relpath maps
 def map_rel(op, rel):
     """where the file `rel` lives after the refactoring"""
@@ -64,6 +91,15 @@ def gen_scenario(rng, kind):
     if kind == "topackage":
         movers = [m for m in movers if m[0] == "P"]
     mover = rng.choice(movers)
+    if kind == "move" and mover[0] == "P" and mover[1] and rng.random() < 0.6:
+        # give some legal destination a module whose name merely starts with the mover's (c/bb.py for a/b.py)
+        longer = G.LONGER.get(mover[2])
+        cands = [d for d in G.legal_dests(tree, pkgs, mover, include_root=False)
+                 if longer and "/".join(d + (longer + ".py",)) not in tree["files"]
+                 and "/".join(d + (longer,)) not in L.tree_dirs(tree)]
+        if cands:
+            d = rng.choice(cands)
+            tree["files"]["/".join(d + (longer + ".py",))] = L.mk_module(globals_=["f"])
     # the mover itself (a file) or modules inside a moved package may import things
     inner = []
     if mover[0] == "P" and rng.random() < (0.9 if kind == "topackage" else 0.5):
@@ -93,6 +129,11 @@ def gen_scenario(rng, kind):
     if kind in ("move", "rename") and mover[0] == "P" and not tree["files"][L.relpath_of_res(mover)]["imports"]:
         for j, (folder, m) in enumerate(G.style_clients(rng, tree, pkgs, mover)):
             clients.append(("/".join(tuple(folder) + ("s%d.py" % j,)), m))
+    forced = []
+    if kind == "move":
+        extra, forced = G.prefix_sibling_clients(rng, tree, pkgs, mover)
+        for j, (folder, m) in enumerate(extra):
+            clients.append(("/".join(tuple(folder) + ("x%d.py" % j,)), m))
     if kind == "move":
         ops = [("move", mover, d) for d in G.legal_dests(tree, pkgs, mover)]
     elif kind == "rename":
@@ -100,7 +141,8 @@ def gen_scenario(rng, kind):
         ops = [o for o in ops if not _name_taken(tree, mover, o[2])]
     else:
         ops = [("topackage", mover)]
-    return {"tree": tree, "pkgs": pkgs, "mover": mover, "clients": clients, "ops": ops, "kind": kind}
+    return {"tree": tree, "pkgs": pkgs, "mover": mover, "clients": clients, "ops": ops, "kind": kind,
+            "forced": [("move", mover, d) for d in forced]}
 
 
 def _realias(stmt, own_globals):
@@ -228,7 +270,7 @@ def rcase_term(wname, op, tree, rel, pr, after_layout_name):
         files_after = {k: v for k, v in pr["parsed"].items() if not isinstance(v, Exception)}
         rs = L.Resolver(files_after, pr["after_dirs"])
         hsa, _ = rs.resolve_all(rel2, pm)
-    return ("{| c_world := %s; c_op := %s; c_layout_after := %s; c_mod := %s; c_out := %s;\n"
+    return ("{| c_variant := cvariant; c_world := %s; c_op := %s; c_layout_after := %s; c_mod := %s; c_out := %s;\n"
             "    c_py_before := %s; c_py_after := %s; c_hs_after := %s |}" % (
                 wname, g_op(op), after_layout_name, L.g_pymod(r, m), out,
                 g_list([L.g_obj(o) for o in pyb]), g_list([L.g_obj(o) for o in pya]),
@@ -274,19 +316,27 @@ def classify(tree, op, rel):
     mover, dest = op[1], tuple(op[2])
     b = G.res_name(mover)
     folder = L.res_of_relpath(rel)[1]
+    variant = detect_variant()
     sigs = list(common)
     # a.b.c style access to a package that was loaded only as a side effect of importing the mover (or of
     # being the mover's own package)
+    rs = L.Resolver(tree["files"], L.tree_dirs(tree))
+    env, ok, _loaded = rs.analyse(rel, m)
     for r in m["refs"]:
-        for k in range(2, len(r) + 1):
-            if tuple(r[:k]) == mvp[:k] and k < len(mvp):
+        o = env.get(r[0])
+        for k in range(1, len(r)):
+            if o is None or o[0] != "M":
+                break
+            o = rs.attr(o[1], r[k], None)
+            if o is not None and o[0] == "M" and o[1][0] == "D" and len(o[1][1]) < len(mvp) \
+                    and tuple(o[1][1]) == mvp[:len(o[1][1])] and len(o[1][1]) >= 2:
                 sigs.append("ancestor-package-of-mover-reached-by-attribute")
     # relative from-imports naming the mover are invisible to _change_import_statements (its ImportContext has
     # no folder): aliased ones stay stale, doubled ones are half rewritten, deeper ones raise AttributeError
     for s in m["imports"]:
-        if s[0] == "F" and s[1] >= 1 and any(n == b for n, _ in s[3]):
+        if s[0] == "F" and s[1] >= 1 and any(n == b for n, _ in s[3]) and not variant["relctx"]:
             sigs.append("relative-from-import-names-mover")
-    if not dest:
+    if not dest and not variant["rootfrom"]:
         for s in m["imports"]:
             if s[0] == "F" and any(n == b and a is not None for n, a in s[3]):
                 sigs.append("dest-root-aliased-from-import-of-mover")
@@ -431,7 +481,8 @@ def run_refactor_stream(ctx, n_scen):
             continue
         ops = sc["ops"]
         if kind == "move" and len(ops) > ctx.scale(2, 4):
-            ops = ctx.rng.sample(ops, ctx.scale(2, 4))
+            must = [o for o in ops if o in sc.get("forced", [])][:1]
+            ops = must + [o for o in ctx.rng.sample(ops, ctx.scale(2, 4)) if o not in must][:ctx.scale(2, 4) - len(must)]
         mover_name = G.res_name(sc["mover"])
         plain = [c for c in sc["clients"] if not G.is_crashy(c[1], mover_name)]
         crashy = [c for c in sc["clients"] if G.is_crashy(c[1], mover_name)]
@@ -503,7 +554,7 @@ def eval_rcases(ctx, defs, terms, meta):
     shard = 120
     bodies = []
     for s in range(0, len(terms), shard):
-        body = HEADER + "\n".join(defs) + "\n"
+        body = HEADER + "Definition cvariant : variant := %s.\n" % g_variant() + "\n".join(defs) + "\n"
         body += "Definition cases : list rcase := %s.\n" % g_list(terms[s:s + shard]).replace("; {|", ";\n {|")
         body += "Eval vm_compute in (mismatches cases).\nEval vm_compute in (count_domain cases).\n"
         bodies.append(body)
@@ -534,6 +585,9 @@ def run(ctx):
                 "levels 1-3, multi-name) and 1-4 references; non-trivial = the module names the mover in an import; "
                 "distinct by (op, module text, tree); plus one-statement clients in each style of the theorems. "
                 "layout: coverage.layout_rule; MoveGlobal: coverage.moveglobal_rule; MoveMethod: coverage.movemethod_rule")
+    v = detect_variant()
+    ctx.extra["variant_under_test"] = dict(v)
+    ctx.count("variant:relctx=%s,rootfrom=%s" % (v["relctx"], v["rootfrom"]))
     from harness import c05_layout
     c05_layout.run(ctx)
     defs, terms, meta = run_refactor_stream(ctx, ctx.scale(18, 120))
